@@ -256,6 +256,9 @@ func (x *Engine) nameEnv(fr *Frame, at *ssa.BasicBlock, override map[ssa.Value]V
 			}
 		}
 	}
+	for k, v := range fr.loopLets[at] {
+		env[k] = v
+	}
 	// visited set of the map iteration driving this loop
 	if li := fr.loops[at]; li != nil {
 		for b := range li.blocks {
@@ -310,6 +313,23 @@ func (x *Engine) loopHeader(fr *Frame, li *loopInfo, st *State) {
 	pos := ""
 	if len(h.Instrs) > 0 {
 		pos = posOf(x.prog, h.Instrs[len(h.Instrs)-1].Pos())
+	}
+	// loop-level lets: evaluated once in the state on entry
+	if ls != nil && len(ls.Lets) > 0 {
+		env, hash := x.nameEnv(fr, h, nil)
+		if fr.loopLets == nil {
+			fr.loopLets = map[*ssa.BasicBlock]map[string]Val{}
+		}
+		fr.loopLets[h] = map[string]Val{}
+		for _, c := range ls.Lets {
+			for k, v := range fr.loopLets[h] {
+				env[k] = v
+			}
+			ev := &Eval{x: x, st: st, old: fr.entry, env: env, hash: hash, pkg: fr.fn.Pkg}
+			lv := x.safeEval(ev, c)
+			lv.T = x.name("llet_"+mangle(c.Label), ev.sortOf(lv), lv.T)
+			fr.loopLets[h][c.Label] = lv
+		}
 	}
 	// 1. invariants on entry
 	if ls != nil && fr.top {
